@@ -1,5 +1,5 @@
 (* C13 — marker normal forms and marker text.
-   Proved: the two facts the text/structure relation rests on, and (level 2, partial — relative to the premises of
+   Proved: the two facts the text/structure relation rests on, and (level 2, partial — on every class of clauses meeting the premises of
    Proofs/MarkerAlgProofs.v) that cnf and dnf keep the truth table, as do MultiMarker.of / MarkerUnion.of.
    Every cnf/dnf/intersect/union/invert result of the implementation is printed, re-parsed (poetry-core and the
    reference parser) and compared on the environment grid by the oracle, and the model computes the same structures
@@ -12,21 +12,31 @@ Import ListNotations.
 Theorem C13_structure : forall E m, leaves_ok E m = true -> validate m E = Ok (beval E m).
 Proof. exact validate_beval. Qed.
 Print Assumptions C13_structure.
-(* re-building a conjunction / disjunction from its members (what parsing the printed text does) keeps the meaning *)
-Theorem C13_rebuild : forall E,
-  (forall a b, marker_eqb a b = true -> beval E a = beval E b) ->
-  forall l, beval E (mk_union_marker l) = existsb (beval E) l /\ beval E (mk_multi_marker l) = forallb (beval E) l.
-Proof. intros E H l. split; [apply flatten_union_sound | apply flatten_multi_sound]; exact H. Qed.
+(* re-building a conjunction / disjunction from its members (what parsing the printed text does) keeps the meaning, on any
+   class R of clauses on which equal keys mean equal values *)
+Theorem C13_rebuild : forall E (R : marker -> Prop),
+  (forall x y, is_leaf_like x = true -> is_leaf_like y = true -> R x -> R y -> marker_eqb x y = true -> beval E x = beval E y) ->
+  forall l, Forall (G R) l ->
+    beval E (mk_union_marker l) = existsb (beval E) l /\ beval E (mk_multi_marker l) = forallb (beval E) l.
+Proof.
+  intros E R K l Gl. pose proof (fun a b Ga Gb => lift_key E R K a Ga b Gb) as HK.
+  split; [exact (proj1 (mk_union_bv E R HK l Gl)) | exact (proj1 (mk_multi_bv E R HK l Gl))].
+Qed.
 Print Assumptions C13_rebuild.
 
-Theorem C13_normal_forms_partial : forall E, key_sound E -> key_symmetric -> merge_sound E ->
-  forall fuel st m,
-    (forall r, cnf fuel st m = Ok r -> beval E r = beval E m) /\ (forall r, dnf fuel st m = Ok r -> beval E r = beval E m).
+(* cnf, dnf and the two "of" constructors keep the truth table, on every [clause_class] (see C07 for what that is and
+   for a class on which the premises are proved) *)
+Theorem C13_normal_forms_partial : forall E R, clause_class E R ->
+  forall fuel st m, G R m ->
+    (forall r, cnf fuel st m = Ok r -> beval E r = beval E m /\ G R r) /\ (forall r, dnf fuel st m = Ok r -> beval E r = beval E m /\ G R r).
 Proof. exact normal_forms_sound. Qed.
 Print Assumptions C13_normal_forms_partial.
-Theorem C13_of_partial : forall E, key_sound E -> key_symmetric -> merge_sound E ->
-  forall fuel st ms,
-    (forall r, multi_of fuel st ms = Ok r -> beval E r = forallb (beval E) ms) /\
-    (forall r, union_of_m fuel st ms = Ok r -> beval E r = existsb (beval E) ms).
+Theorem C13_of_partial : forall E R, clause_class E R ->
+  forall fuel st ms, Forall (G R) ms ->
+    (forall r, multi_of fuel st ms = Ok r -> beval E r = forallb (beval E) ms /\ G R r) /\
+    (forall r, union_of_m fuel st ms = Ok r -> beval E r = existsb (beval E) ms /\ G R r).
 Proof. exact of_sound. Qed.
 Print Assumptions C13_of_partial.
+Theorem C13_class_exists : forall E, clause_class E demo_R.
+Proof. exact demo_class. Qed.
+Print Assumptions C13_class_exists.
